@@ -587,6 +587,7 @@ def count_classes(rec, case: dict, what: str) -> None:
 
 def fitness_mismatch(rec, case: dict, data: dict, got: float, want: float, p, q, what: str, extra: str, index) -> None:
     """Classify a fitness that differs from the oracle by how it differs."""
+    got = float(got)
     mech = f"C11:fitness:{what}:{ro_name(case)}:weights-{case['wk']}:mismatch"
     if case["wk"] != "none":
         unweighted = oracle_fitness(case, data, p, q, weighted=False)
